@@ -33,6 +33,10 @@ Inductive op :=
                                     each takes its counter in one atomic step (atomic.AddUint64), so every
                                     interleaving hands out the same set of counters; the runner pairs the
                                     counters, sorted, with the kinds in the order given *)
+| RespDuring (h r : N)           (* Request h while whose datagram is inside the connection writer the response
+                                    for counter r is processed (the reader goroutine of a fast peer): the duplicate
+                                    test has been made, the new request is remembered after the write.  A withheld
+                                    request writes nothing, so no response is delivered then. *)
 | DupBurst (h : N) (ks : list N). (* a Request h overlapped by the calls of Burst ks.  When an identical request is
                                     unanswered (the only case the runner overlaps) the request is withheld: it
                                     takes no counter and changes nothing, so it commutes with every call of the
@@ -130,6 +134,14 @@ Definition step (s : st) (o : op) : st * list obs :=
   | Burst ks =>
       ({| ctr := burst_ctr (ctr s) ks; reqs := reqs s; lru := lru s; space := space s |},
        burst_obs (ctr s) ks)
+  | RespDuring h r =>
+      match find_hash h (reqs s) with
+      | Some c => (s, [RetCtr c])
+      | None =>
+          let c := N.succ (ctr s) in
+          ({| ctr := c; reqs := add_req c h (remove_N r (reqs s)); lru := lru s; space := space s |},
+           [Written c K_REQUEST h; RetCtr c])
+      end
   | DupBurst h ks =>
       match find_hash h (reqs s) with
       | Some c =>
@@ -164,6 +176,7 @@ Definition parse_op (l : list Z) : option op :=
   | [6; p] => Some (NotifyProbe (Nz p))
   | 5 :: ks => Some (Burst (map Nz ks))
   | 7 :: h :: ks => Some (DupBurst (Nz h) (map Nz ks))
+  | [8; h; r] => Some (RespDuring (Nz h) (Nz r))
   | _ => None
   end.
 
